@@ -94,6 +94,7 @@ fn mk_span(l: &Lvl, level: usize) -> Span {
         0 => tracing::info_span!("s", a = Empty, b = Empty),
         1 => tracing::info_span!("s", a = va.as_str(), b = Empty),
         2 => tracing::info_span!("s", a = Empty, b = vb.as_str()),
+        4 => tracing::info_span!("s"), // a callsite that declares no fields at all
         _ => tracing::info_span!("s", a = va.as_str(), b = vb.as_str()),
     }
 }
@@ -277,6 +278,8 @@ fn levels() -> Vec<Lvl> {
             }
         }
     }
+    // a span whose callsite declares no fields (nothing to record on it)
+    v.push(Lvl { create: 4, record: 0, late: false });
     v
 }
 
@@ -372,6 +375,7 @@ fn mk_span_with_parent(create: u8, tag: &str, parent: Option<Option<&Span>>) -> 
                 0 => tracing::info_span!($($p)* "s", a = Empty, b = Empty),
                 1 => tracing::info_span!($($p)* "s", a = va.as_str(), b = Empty),
                 2 => tracing::info_span!($($p)* "s", a = Empty, b = vb.as_str()),
+                4 => tracing::info_span!($($p)* "s"),
                 _ => tracing::info_span!($($p)* "s", a = va.as_str(), b = vb.as_str()),
             }
         };
@@ -403,8 +407,8 @@ fn explicit_parent_part(res: &mut PartResult) {
         let log: Log = Default::default();
         let rec = filter.build(log.clone());
         for xc in 0..4u8 {
-            for pc in 0..4u8 {
-                for cc in 0..4u8 {
+            for pc in 0..5u8 {
+                for cc in 0..5u8 {
                     for mode in 0..3u8 {
                         for other_thread in [false, true] {
                             res.executions += 1;
